@@ -332,6 +332,294 @@ Proof.
   intros E. rewrite exec_S. unfold exec_prog_step. cbv zeta. unfold eval in E. rewrite E. simpl. eexists. reflexivity.
 Qed.
 
+(* ---- C06: typed dispatch of a binary operator on two evaluated operands ---- *)
+Definition logical (op : bytes) : bool := op_is op o_and || op_is op o_or.
+
+Theorem infix_values fuel st op l r lv st1 rv st2 :
+  logical op = false ->
+  eval G fuel st l = ROk (lv, st1) -> eval G fuel st1 r = ROk (rv, st2) ->
+  is_nil lv = false -> is_nil rv = false ->
+  eval_infix G (S fuel) st op l r =
+  match lv with
+  | VStr ls => match sprint (sheap st2) rv with
+               | Some rr => of_opres (strings_op op ls rr) st2
+               | None => RUnsup
+               end
+  | VInt a => match rv with VInt b => of_opres (ints_op op a b) st2 | _ => fail st2 end
+  | VFloat a => match rv with VFloat b => of_opres (floats_op op a b) st2 | _ => fail st2 end
+  | VBool a => of_opres (bools_op op a (truthy rv)) st2
+  | VSlice _ | VList _ => eval_infix G (S fuel) st op l r
+  | _ => fail st2
+  end.
+Proof.
+  intros Hl El Er Nl Nr. unfold logical in Hl. apply orb_false_elim in Hl. destruct Hl as [Ha Ho].
+  destruct lv; try reflexivity;
+    rewrite eval_infix_S; unfold eval_infix_step; cbv zeta; unfold eval in El, Er;
+    rewrite El; cbn [tolerate rbind]; rewrite Ha, Ho; cbn [andb];
+    rewrite Er; cbn [tolerate rbind]; cbn [orb]; try rewrite Nr; cbn [is_nil orb]; try reflexivity;
+    try discriminate Nl.
+Qed.
+
+(* two integers: the integer table decides, and nothing else happens *)
+Theorem infix_ints fuel st op l r a st1 b st2 :
+  logical op = false ->
+  eval G fuel st l = ROk (VInt a, st1) -> eval G fuel st1 r = ROk (VInt b, st2) ->
+  eval_infix G (S fuel) st op l r = of_opres (ints_op op a b) st2.
+Proof. intros Hl El Er. rewrite (infix_values fuel st op l r _ _ _ _ Hl El Er); reflexivity. Qed.
+
+(* string + x concatenates the printed form of x *)
+Theorem infix_string_plus fuel st l r ls st1 rv st2 rr :
+  eval G fuel st l = ROk (VStr ls, st1) -> eval G fuel st1 r = ROk (rv, st2) ->
+  is_nil rv = false -> sprint (sheap st2) rv = Some rr ->
+  eval_infix G (S fuel) st o_plus l r = ROk (VStr (ls ++ rr), st2).
+Proof.
+  intros El Er Nr Hs. rewrite (infix_values fuel st o_plus l r _ _ _ _ eq_refl El Er eq_refl Nr).
+  rewrite Hs. reflexivity.
+Qed.
+
+(* an integer with a non-integer, non-nil operand is an error *)
+Theorem infix_int_mismatch fuel st op l r a st1 rv st2 :
+  logical op = false ->
+  eval G fuel st l = ROk (VInt a, st1) -> eval G fuel st1 r = ROk (rv, st2) ->
+  is_nil rv = false -> (forall b, rv <> VInt b) ->
+  eval_infix G (S fuel) st op l r = RErr (EFail None) st2.
+Proof.
+  intros Hl El Er Nr Hn. rewrite (infix_values fuel st op l r _ _ _ _ Hl El Er eq_refl Nr).
+  destruct rv; try reflexivity. exfalso. eapply Hn. reflexivity.
+Qed.
+
+(* ---- C02: what each kind of top-level statement contributes to the output ---- *)
+Lemma write_nil_any h : write h VNil = [].
+Proof. unfold write. destruct (length h + 64)%nat; reflexivity. Qed.
+Lemma printable_nil_any h : printable h VNil = true.
+Proof. unfold printable. rewrite Nat.add_comm. reflexivity. Qed.
+Lemma write_html_top h s : write h (VHTML s) = s.
+Proof. unfold write. rewrite Nat.add_comm. reflexivity. Qed.
+Lemma printable_html_top h s : printable h (VHTML s) = true.
+Proof. unfold printable. rewrite Nat.add_comm. reflexivity. Qed.
+
+(* literal text is appended verbatim *)
+Theorem exec_text fuel st t lit s rest out :
+  exec_prog G (S fuel) st (SExpr t (EHtml lit s) :: rest) out =
+  exec_prog G fuel (with_stmt st None) rest (out ++ s).
+Proof.
+  rewrite exec_S. unfold exec_prog_step. cbv zeta. rewrite printable_html_top, write_html_top. reflexivity.
+Qed.
+
+(* an output tag appends the printed form of its value *)
+Theorem exec_output_tag fuel st t e rest out v st1 :
+  eval G fuel (with_stmt st None) e = ROk (v, st1) -> printable (sheap st1) v = true ->
+  exec_prog G (S fuel) st (SRet t true e :: rest) out =
+  exec_prog G fuel st1 rest (out ++ write (sheap st1) v).
+Proof.
+  intros E Hp. rewrite exec_S. unfold exec_prog_step. cbv zeta. unfold eval in E. rewrite E. simpl.
+  rewrite Hp. reflexivity.
+Qed.
+
+(* a code tag holding an expression appends nothing, whatever its value *)
+Theorem exec_silent_expr fuel st t e rest out v st1 :
+  (forall lit s, e <> EHtml lit s) ->
+  eval G fuel (with_stmt st None) e = ROk (v, st1) ->
+  exec_prog G (S fuel) st (SExpr t e :: rest) out = exec_prog G fuel st1 rest out.
+Proof.
+  intros Hne E. rewrite exec_S. unfold exec_prog_step. cbv zeta. unfold eval in E.
+  destruct e; try (rewrite E; simpl; rewrite printable_nil_any, write_nil_any, app_nil_r; reflexivity).
+  exfalso. eapply Hne. reflexivity.
+Qed.
+
+(* a let statement appends nothing *)
+Theorem exec_silent_let fuel st t name e rest out v st1 :
+  eval G fuel (with_stmt st None) e = ROk (v, st1) ->
+  exists st2, exec_prog G (S fuel) st (SLet t name e :: rest) out = exec_prog G fuel st2 rest out
+              /\ sheap st2 = sheap st1.
+Proof.
+  intros E. rewrite exec_S. unfold exec_prog_step. cbv zeta. unfold eval in E. rewrite E. simpl.
+  eexists. split.
+  - match goal with |- context [printable ?h VNil] => rewrite (printable_nil_any h), (write_nil_any h) end.
+    rewrite app_nil_r. reflexivity.
+  - reflexivity.
+Qed.
+
+(* ---- C15: the line reported for a failing top-level statement ---- *)
+Definition stmt_expr (s : stmt) : expr :=
+  match s with SRet _ _ e => e | SExpr _ e => e | SLet _ _ e => e end.
+
+(* the line is the one recorded by the innermost statement of a block that was
+   being evaluated, otherwise the line of the first token of the tag itself *)
+Theorem exec_error_line fuel st s rest out k st1 :
+  (forall lit v, stmt_expr s <> EHtml lit v) ->
+  eval G fuel (with_stmt st None) (stmt_expr s) = RErr k st1 ->
+  exec_prog G (S fuel) st (s :: rest) out =
+  OErr (match sstmt st1 with Some l => l | None => tline (stmt_tok s) end) k st1.
+Proof.
+  intros Hne E. rewrite exec_S. unfold exec_prog_step. cbv zeta. unfold eval in E.
+  destruct s as [t n e|t b e|t e]; cbn [stmt_expr] in *.
+  - rewrite E. reflexivity.
+  - rewrite E. reflexivity.
+  - destruct e; try (rewrite E; reflexivity). exfalso. eapply Hne. reflexivity.
+Qed.
+
+(* ---- C13: a hash literal is evaluated in source order ---- *)
+Lemma eval_pairs_S fuel st ps acc : eval_pairs G (S fuel) st ps acc = eval_pairs_step (evals_at G fuel) st ps acc.
+Proof. reflexivity. Qed.
+
+(* the first pair of the source is evaluated first, in the incoming state; the
+   others see the state it left; a later duplicate key overwrites the earlier *)
+Theorem hash_pairs_in_source_order fuel st k ve rest acc v st1 :
+  eval G fuel st ve = ROk (v, st1) ->
+  eval_pairs G (S fuel) st ((k, ve) :: rest) acc =
+  eval_pairs G fuel st1 rest (vupdate (VStr (expr_lit k)) v acc).
+Proof. intros E. rewrite eval_pairs_S. unfold eval_pairs_step. unfold eval in E. rewrite E. reflexivity. Qed.
+Theorem hash_pairs_stop_at_first_failure fuel st k ve rest acc e st1 :
+  eval G fuel st ve = RErr e st1 ->
+  eval_pairs G (S fuel) st ((k, ve) :: rest) acc = RErr e st1.
+Proof. intros E. rewrite eval_pairs_S. unfold eval_pairs_step. unfold eval in E. rewrite E. reflexivity. Qed.
+Theorem hash_pairs_done fuel st acc : eval_pairs G (S fuel) st [] acc = ROk (acc, st).
+Proof. reflexivity. Qed.
+
+(* ================= C11: path access ================= *)
+Lemma eval_chain_S fuel st comps : eval_chain G (S fuel) st comps = eval_chain_step G (evals_at G fuel) st comps.
+Proof. reflexivity. Qed.
+Lemma eval_index_S fuel st l i v callee : eval_index G (S fuel) st l i v callee = eval_index_step (evals_at G fuel) st l i v callee.
+Proof. reflexivity. Qed.
+
+Definition deref (c : value) : value := match c with VPtr x => x | x => x end.
+Ltac dr c Hd := unfold deref in Hd; destruct c; try discriminate Hd; first [injection Hd as ? ?; subst | subst].
+Definition plain_field (fv : value) : Prop := (forall tn, fv <> VNilPtr tn) /\ (forall x, fv <> VPtr x).
+
+(* a variable: exactly the value bound to that name in the current scope chain *)
+Theorem path_variable fuel st n : Ctx.has value VNil is_nil (sctx st) (scur st) n = true ->
+  eval_chain G (S fuel) st [n] = ROk (Ctx.value value VNil (sctx st) (scur st) n, st).
+Proof. intros H. rewrite eval_chain_S. unfold eval_chain_step. rewrite H. reflexivity. Qed.
+
+(* field selection (the path is kept in reverse: n is the last component):
+   exactly the field of that name, through a pointer or not *)
+Theorem path_field fuel st n m rest c st1 tn fs fv :
+  eval_chain G fuel st (m :: rest) = ROk (c, st1) -> deref c = VStruct tn fs ->
+  field_of fs n = Some fv -> plain_field fv -> exported n = true ->
+  eval_chain G (S fuel) st (n :: m :: rest) = ROk (fv, st1).
+Proof.
+  intros E Hd Hf [Hp1 Hp2] Hx. rewrite eval_chain_S. unfold eval_chain_step. unfold eval_chain in E. rewrite E.
+  cbn [rbind]. dr c Hd; rewrite Hf, Hx; destruct fv; try reflexivity;
+    solve [exfalso; eapply Hp2; reflexivity|exfalso; eapply Hp1; reflexivity].
+Qed.
+(* a pointer field is followed; a nil pointer field gives nil (empty output) *)
+Theorem path_pointer_field fuel st n m rest c st1 tn fs x :
+  eval_chain G fuel st (m :: rest) = ROk (c, st1) -> deref c = VStruct tn fs ->
+  field_of fs n = Some (VPtr x) -> exported n = true ->
+  eval_chain G (S fuel) st (n :: m :: rest) = ROk (x, st1).
+Proof.
+  intros E Hd Hf Hx. rewrite eval_chain_S. unfold eval_chain_step. unfold eval_chain in E. rewrite E.
+  cbn [rbind]. dr c Hd; rewrite Hf, Hx; reflexivity.
+Qed.
+Theorem path_nil_pointer_field fuel st n m rest c st1 tn fs tn' :
+  eval_chain G fuel st (m :: rest) = ROk (c, st1) -> deref c = VStruct tn fs ->
+  field_of fs n = Some (VNilPtr tn') ->
+  eval_chain G (S fuel) st (n :: m :: rest) = ROk (VNil, st1).
+Proof.
+  intros E Hd Hf. rewrite eval_chain_S. unfold eval_chain_step. unfold eval_chain in E. rewrite E.
+  cbn [rbind]. dr c Hd; rewrite Hf; reflexivity.
+Qed.
+(* an unknown member (no such field, no such value method) is an error *)
+Theorem path_unknown_member fuel st n m rest c st1 tn fs :
+  eval_chain G fuel st (m :: rest) = ROk (c, st1) -> deref c = VStruct tn fs ->
+  field_of fs n = None -> (forall id, find_method (g_methods G tn) n <> Some (false, id)) ->
+  eval_chain G (S fuel) st (n :: m :: rest) = RErr (EFail None) st1.
+Proof.
+  intros E Hd Hf Hm. rewrite eval_chain_S. unfold eval_chain_step. unfold eval_chain in E. rewrite E.
+  cbn [rbind]. dr c Hd; rewrite Hf;
+    (destruct (find_method (g_methods G tn) n) as [[[|] id]|] eqn:Em; try reflexivity;
+     exfalso; eapply Hm; reflexivity).
+Qed.
+(* an unexported member is an error *)
+Theorem path_unexported_member fuel st n m rest c st1 tn fs fv :
+  eval_chain G fuel st (m :: rest) = ROk (c, st1) -> deref c = VStruct tn fs ->
+  field_of fs n = Some fv -> (forall tn', fv <> VNilPtr tn') -> exported n = false ->
+  eval_chain G (S fuel) st (n :: m :: rest) = RErr (EFail None) st1.
+Proof.
+  intros E Hd Hf Hp Hx. rewrite eval_chain_S. unfold eval_chain_step. unfold eval_chain in E. rewrite E.
+  cbn [rbind]. dr c Hd; rewrite Hf, Hx; destruct fv; try reflexivity;
+    exfalso; eapply Hp; reflexivity.
+Qed.
+(* a failing prefix fails the whole path *)
+Theorem path_prefix_failure fuel st n m rest e st1 :
+  eval_chain G fuel st (m :: rest) = RErr e st1 ->
+  eval_chain G (S fuel) st (n :: m :: rest) = RErr e st1.
+Proof. intros E. rewrite eval_chain_S. unfold eval_chain_step. unfold eval_chain in E. rewrite E. reflexivity. Qed.
+
+(* indexing a list: exactly the element at that position ... *)
+Theorem index_list_in_range fuel st l i z st1 es st2 x :
+  eval G fuel st i = ROk (VInt z, st1) -> eval G fuel st1 l = ROk (VList es, st2) ->
+  nth_error es (Z.to_nat z) = Some x -> (0 <= z)%Z ->
+  eval_index G (S fuel) st l i ENil ENil = ROk (x, st2).
+Proof.
+  intros Ei El Hn Hz. rewrite eval_index_S. unfold eval_index_step. unfold eval in Ei, El.
+  rewrite Ei. cbn [rbind]. rewrite El. cbn [rbind].
+  assert (Hlt: (Z.to_nat z < length es)%nat) by (apply nth_error_Some; congruence).
+  assert (H1: (z <? 0)%Z = false) by (apply Z.ltb_ge; exact Hz).
+  assert (H2: (Z.of_nat (length es) - 1 <? z)%Z = false) by (apply Z.ltb_ge; lia).
+  rewrite H1, H2. cbn [orb]. rewrite Hn. reflexivity.
+Qed.
+(* ... and out of range it is an error, never another element *)
+Theorem index_list_out_of_range fuel st l i z st1 es st2 callee :
+  eval G fuel st i = ROk (VInt z, st1) -> eval G fuel st1 l = ROk (VList es, st2) ->
+  (z < 0 \/ Z.of_nat (length es) <= z)%Z ->
+  eval_index G (S fuel) st l i ENil callee = RErr (EFail None) st2.
+Proof.
+  intros Ei El Hz. rewrite eval_index_S. unfold eval_index_step. unfold eval in Ei, El.
+  rewrite Ei. cbn [rbind]. rewrite El. cbn [rbind].
+  assert (H: ((z <? 0)%Z || (Z.of_nat (length es) - 1 <? z)%Z) = true).
+  { apply orb_true_iff. destruct Hz; [left; apply Z.ltb_lt; assumption|right; apply Z.ltb_lt; lia]. }
+  rewrite H. reflexivity.
+Qed.
+(* the same for a Go slice held in the heap *)
+Theorem index_slice_in_range fuel st l i z st1 loc ety es st2 x :
+  eval G fuel st i = ROk (VInt z, st1) -> eval G fuel st1 l = ROk (VSlice loc, st2) ->
+  hget (sheap st2) loc = Some (HSlice ety es) ->
+  nth_error es (Z.to_nat z) = Some x -> (0 <= z)%Z ->
+  eval_index G (S fuel) st l i ENil ENil = ROk (x, st2).
+Proof.
+  intros Ei El Hh Hn Hz. rewrite eval_index_S. unfold eval_index_step. unfold eval in Ei, El.
+  rewrite Ei. cbn [rbind]. rewrite El. cbn [rbind]. rewrite Hh.
+  assert (Hlt: (Z.to_nat z < length es)%nat) by (apply nth_error_Some; congruence).
+  assert (H1: (z <? 0)%Z = false) by (apply Z.ltb_ge; exact Hz).
+  assert (H2: (Z.of_nat (length es) - 1 <? z)%Z = false) by (apply Z.ltb_ge; lia).
+  rewrite H1, H2. cbn [orb]. rewrite Hn. reflexivity.
+Qed.
+Theorem index_slice_out_of_range fuel st l i z st1 loc ety es st2 callee :
+  eval G fuel st i = ROk (VInt z, st1) -> eval G fuel st1 l = ROk (VSlice loc, st2) ->
+  hget (sheap st2) loc = Some (HSlice ety es) ->
+  (z < 0 \/ Z.of_nat (length es) <= z)%Z ->
+  eval_index G (S fuel) st l i ENil callee = RErr (EFail None) st2.
+Proof.
+  intros Ei El Hh Hz. rewrite eval_index_S. unfold eval_index_step. unfold eval in Ei, El.
+  rewrite Ei. cbn [rbind]. rewrite El. cbn [rbind]. rewrite Hh.
+  assert (H: ((z <? 0)%Z || (Z.of_nat (length es) - 1 <? z)%Z) = true).
+  { apply orb_true_iff. destruct Hz; [left; apply Z.ltb_lt; assumption|right; apply Z.ltb_lt; lia]. }
+  rewrite H. reflexivity.
+Qed.
+(* a map with string keys: the value stored under that key, or nil *)
+Theorem index_map_string_key fuel st l i k st1 loc vty kvs st2 :
+  eval G fuel st i = ROk (VStr k, st1) -> eval G fuel st1 l = ROk (VMap loc, st2) ->
+  hget (sheap st2) loc = Some (HMap TyString vty kvs) ->
+  eval_index G (S fuel) st l i ENil ENil =
+  ROk (match vlookup (VStr k) kvs with Some x => x | None => VNil end, st2).
+Proof.
+  intros Ei El Hh. rewrite eval_index_S. unfold eval_index_step. unfold eval in Ei, El.
+  rewrite Ei. cbn [rbind]. rewrite El. cbn [rbind]. rewrite Hh. cbn [comparable_v negb].
+  destruct (vlookup (VStr k) kvs); reflexivity.
+Qed.
+(* anything that is neither a map nor a sequence cannot be indexed *)
+Theorem index_not_indexable fuel st l i iv st1 lv st2 callee :
+  eval G fuel st i = ROk (iv, st1) -> eval G fuel st1 l = ROk (lv, st2) ->
+  (forall loc, lv <> VMap loc) -> (forall loc, lv <> VSlice loc) -> (forall vs, lv <> VList vs) ->
+  eval_index G (S fuel) st l i ENil callee = RErr (EFail None) st2.
+Proof.
+  intros Ei El H1 H2 H3. rewrite eval_index_S. unfold eval_index_step. unfold eval in Ei, El.
+  rewrite Ei. cbn [rbind]. rewrite El. cbn [rbind].
+  destruct lv; try reflexivity; exfalso; first [eapply H3; reflexivity|eapply H2; reflexivity|eapply H1; reflexivity].
+Qed.
+
 (* ================= C16: user functions ================= *)
 Lemma user_call_S fuel st ps body args : user_call G (S fuel) st ps body args = user_call_step G (evals_at G fuel) st ps body args.
 Proof. reflexivity. Qed.
